@@ -259,13 +259,15 @@ func (w *binaryWriter) WriteSymbol(val SymbolToken) error {
 	}
 
 	var id uint64
-	if val.LocalSID != SymbolIDUnknown {
-		id = uint64(val.LocalSID)
-	} else if val.Text != nil {
+	if val.Text != nil {
+		// A token that knows its text is written by that text: its LocalSID belongs to
+		// the symbol table it was read from, not to the one this writer is building.
 		id, w.err = w.resolveFromSymbolTable("Writer.WriteSymbol", *val.Text)
 		if w.err != nil {
 			return w.err
 		}
+	} else if val.LocalSID != SymbolIDUnknown {
+		id = uint64(val.LocalSID)
 	} else {
 		w.err = &UsageError{"Writer.WriteSymbol", "symbol token without defined text or symbol id is invalid"}
 		return w.err
@@ -529,14 +531,16 @@ func (w *binaryWriter) beginValue(api string) error {
 		}
 
 		var id uint64
-		if name.LocalSID != SymbolIDUnknown {
-			id = uint64(name.LocalSID)
-		} else if name.Text != nil {
+		if name.Text != nil {
+			// Written by text, like annotations: the token's LocalSID belongs to the table it
+			// was read from.
 			var err error
 			id, err = w.resolve(api, *name.Text)
 			if err != nil {
 				return err
 			}
+		} else if name.LocalSID != SymbolIDUnknown {
+			id = uint64(name.LocalSID)
 		} else {
 			return &UsageError{api, "field name symbol token does not have defined text or symbol id."}
 		}
